@@ -5,11 +5,12 @@ static struct CSR *mk(void) { struct CSR *c = malloc(sizeof(*c)); __CPROVER_assu
 static void done(void) {
   __CPROVER_assert(g_access == A_NONE && g_lock_calls == 1 && g_unlock_calls == 1, "C11 the lock taken is released on every exit, exactly once");
   __CPROVER_assert(g_inner_calls == 1, "C11 the wrapped router operation is performed exactly once, inside the locked region"); }
-void h_CSR_notify0(void) { struct CSR *c = mk(); struct RKey k; CSR__notify_T_(c, &k); done(); CANARY; }
-void h_CSR_notify1(void) { struct CSR *c = mk(); struct RKey k; int v; CSR__notify_T_int_ref(c, &k, &v); done(); CANARY; }
-void h_CSR_exists(void) { struct CSR *c = mk(); struct RKey k; CSR__exists(c, &k); done(); CANARY; }
-void h_CSR_depth(void) { struct CSR *c = mk(); CSR__depth(c); done(); CANARY; }
-void h_CSR_shrink(void) { struct CSR *c = mk(); struct RKey k; CSR__shrink(c, &k); done(); CANARY; }
+#define PASSED(cond) __CPROVER_assert(cond, "C06/C11 the wrapped router operation receives the key and arguments that were passed and its answer is returned")
+void h_CSR_notify0(void) { struct CSR *c = mk(); struct RKey k; size_t r = CSR__notify_T_(c, &k); done(); PASSED(g_key_seen == &k && r == g_ret_inner); CANARY; }
+void h_CSR_notify1(void) { struct CSR *c = mk(); struct RKey k; int v; size_t r = CSR__notify_T_int_ref(c, &k, &v); done(); PASSED(g_key_seen == &k && g_arg_seen == &v && r == g_ret_inner); CANARY; }
+void h_CSR_exists(void) { struct CSR *c = mk(); struct RKey k; _Bool r = CSR__exists(c, &k); done(); PASSED(g_key_seen == &k && r == g_bret_inner); CANARY; }
+void h_CSR_depth(void) { struct CSR *c = mk(); size_t r = CSR__depth(c); done(); PASSED(r == g_ret_inner); CANARY; }
+void h_CSR_shrink(void) { struct CSR *c = mk(); struct RKey k; CSR__shrink(c, &k); done(); PASSED(g_key_seen == &k); CANARY; }
 void h_CSR_subscribe0(void) { struct CSR *c = mk(); struct RKey k; struct closure_tulz_verif_inst__use_1 o; struct USub r; CSR__subscribe_T__lambda_csr_cpp_L6(c, &k, &o, &r); done(); __CPROVER_assert(g_sub_ctor_calls == 1, "C11 subscribe returns a handle bound to this router"); CANARY; }
 void h_CSR_subscribe1(void) { struct CSR *c = mk(); struct RKey k; struct closure_tulz_verif_inst__use_2 o; struct USub r; CSR__subscribe_T_int_lambda_csr_cpp_L7(c, &k, &o, &r); done(); __CPROVER_assert(g_sub_ctor_calls == 1, "C11 subscribe returns a handle bound to this router"); CANARY; }
 void h_CSR_unsubscribe0(void) { struct CSR *c = mk(); struct CInv0 *i = malloc(sizeof(*i)); __CPROVER_assume(i != 0); i->m_resource = g_res; CInv0__unsubscribe(i); done(); CANARY; }
